@@ -306,9 +306,14 @@ func RunNative(r *Replay, f func(*T)) (out Outcome) {
 		deadline := time.Now().Add(25 * time.Second)
 		for i := 0; i < r.Repeat && time.Now().Before(deadline); i++ {
 			out = runNativeOnce(r, f)
-			if out.Outcome != "ok" {
+			// a run that takes another schedule than the engine's may leave the recorded path
+			// (and ask for inputs the replay does not have): that iteration did not reproduce
+			if out.Outcome != "ok" && !strings.HasPrefix(out.Outcome, "desync:") {
 				return out
 			}
+		}
+		if strings.HasPrefix(out.Outcome, "desync:") {
+			out.Outcome = "ok"
 		}
 		return out
 	}
